@@ -354,6 +354,24 @@ pub fn exec(op: &str, a: &[u64]) -> Result<Outcome, String> {
                     if pf || ign {
                         o.check(*ids == want, "byte ids != prefix ++ utf-8 bytes (specials as ids) ++ suffix");
                     }
+                    // the special tokens are exactly the configured ones plus the FEWEST <extra_token_i> that pad the
+                    // vocabulary to a multiple of pad_to_multiple_of: nothing else may be parsed as a special token
+                    if let Kind::Byte { pad_to, .. } = &kind {
+                        let mut uniq: Vec<&String> = vec![];
+                        for t in &c.tokens {
+                            if !uniq.contains(&t) {
+                                uniq.push(t);
+                            }
+                        }
+                        let base = 256 + uniq.len();
+                        let padded = match pad_to {
+                            Some(p) if *p > 0 => base.div_ceil(*p) * *p,
+                            _ => base,
+                        };
+                        // generated padding tokens may coincide with configured ones (then the vocabulary stays short)
+                        o.check(256 + b.specials.len() <= padded, "the tokenizer has more special tokens than the configuration asks for (tokens + minimal padding)");
+                        o.check(uniq.iter().all(|t| b.specials.contains(t)), "a configured special token is missing");
+                    }
                     // C17 oracle (groups partition the ids)
                     o.check(groups.iter().map(|g| g.len()).sum::<usize>() == ids.len(), "group lengths do not sum to the number of ids");
                     if pf || ign {
